@@ -136,7 +136,26 @@ def run_case(case, res):
                     chk("last_child", x.last_child(), K[-1] if K else None, x)
                     chk("has_children", x.has_children(), bool(K), x)
                 if typed:
-                    pass  # kind-aware sibling queries (also with any_kind) are C15's subject
+                    # typed trees: both the any_kind variants (= untyped answers) and the kind-aware
+                    # defaults (= the sibling list filtered by kind) must agree with the shape
+                    same = [q for q in sibs if q.kind == x.kind]
+                    j = [k for k, q in enumerate(same) if q is x][0]
+                    chk("get_siblings(any_kind)", x.get_siblings(any_kind=True), [q for q in sibs if q is not x], x)
+                    chk("first_sibling(any_kind)", x.first_sibling(any_kind=True), sibs[0], x)
+                    chk("last_sibling(any_kind)", x.last_sibling(any_kind=True), sibs[-1], x)
+                    chk("prev_sibling(any_kind)", x.prev_sibling(any_kind=True), sibs[i - 1] if i > 0 else None, x)
+                    chk("next_sibling(any_kind)", x.next_sibling(any_kind=True), sibs[i + 1] if i + 1 < len(sibs) else None, x)
+                    chk("get_index(any_kind)", attempt(lambda: x.get_index(any_kind=True)), i, x)
+                    chk("is_first_sibling(any_kind)", x.is_first_sibling(any_kind=True), i == 0, x)
+                    chk("is_last_sibling(any_kind)", x.is_last_sibling(any_kind=True), i == len(sibs) - 1, x)
+                    chk("get_siblings()", x.get_siblings(), [q for q in same if q is not x], x)
+                    chk("first_sibling()", x.first_sibling(), same[0], x)
+                    chk("last_sibling()", x.last_sibling(), same[-1], x)
+                    chk("prev_sibling()", x.prev_sibling(), same[j - 1] if j > 0 else None, x)
+                    chk("next_sibling()", x.next_sibling(), same[j + 1] if j + 1 < len(same) else None, x)
+                    chk("get_index()", attempt(lambda: x.get_index()), j, x)
+                    chk("is_first_sibling()", x.is_first_sibling(), j == 0, x)
+                    chk("is_last_sibling()", x.is_last_sibling(), j == len(same) - 1, x)
                 else:
                   chk("get_siblings", x.get_siblings(**kw), [s for s in sibs if s is not x], x)
                   chk("get_siblings(add_self)", list(x.get_siblings(add_self=True, **kw)), sibs, x)
